@@ -46,10 +46,10 @@ PAT = [0.8, -0.6, 0.3, -1.1, 0.9, -0.2, 0.5, -0.7, 1.2, -0.4, 0.1, -0.9, 0.6]
 def families(tier):
     """list of (dim, idset, npoints)"""
     if tier == "quick":
-        return [(d, s, 3) for d in "213" for s in ("same", "rev")]
+        return [(d, s, 3) for d in "21" for s in ("same", "rev")] + [("3", "rev", 3)]
     return ([(d, s, 3) for d in "213" for s in ("same", "rev", "mixed")] +
             [(d, s, 4) for d in "21" for s in ("same", "rev", "mixed")] +
-            [("3", s, 4) for s in ("same", "rev")])
+            [("3", "rev", 4)])
 
 
 def famkey(fam):
